@@ -247,10 +247,7 @@ def _run_multi(case):
         # labelled array; every other case with rows of arbitrary (non-unit) length, which mean the same directions
         rows = [to_vector(pol[l]) * ([1.0, 2.5, 0.04][i % 3] if sum(case["seed"][-1:]) % 2 else 1.0) for i, l in enumerate(perm)]
         pol_arg = xr.concat(rows, xr.DataArray(perm, dims="illumination", name="illumination"))
-    if form["wl"] == "list":
-        # (with a plain list the channel order is the detector's; one polarization for all channels keeps that the only order in play)
-        pol = {l: pol[labs[0]] for l in labs}
-        pol_arg = tuple(pol[labs[0]])
+    # (with a plain list of wavelengths the channel order is the detector's, in whatever order the polarizations are labelled: F184, F189)
     n_arg = nidx if form["n"] == "dict" else (as_array(nidx, perm) if form["n"] == "array_perm" else nidx[labs[0]])
     r_arg = rad if form["r"] == "dict" else rad[labs[0]]
     sc_arg = scaling if form["scaling"] == "dict" else scaling[labs[0]]
